@@ -72,6 +72,73 @@ type c18Case struct {
 	RawHex string `json:"raw_hex"`
 	Raw    string `json:"raw_quoted"`
 	Absent bool   `json:"absent"`
+	// nested mode: the handler of GET /p/<raw>?k=<raw> serves GET /r/<inner>?k=<inner> on the same
+	// instance (a sub-request) between two reads of its own data, after Warm ordinary requests
+	Inner string `json:"inner_request_text,omitempty"`
+	Warm  int    `json:"earlier_requests,omitempty"`
+}
+
+// c18Nested: request data belongs to its request. After warm ordinary requests, the handler of an outer
+// request reads its data, serves an inner request on the same instance, and reads its data again.
+func c18Nested(outer, inner string, warm int) (bad string) {
+	if strings.ContainsAny(outer+inner, "/?#") || outer == "" || inner == "" {
+		return ""
+	}
+	f := flamego.NewWithLogger(io.Discard)
+	type snap struct {
+		X, Y, K string
+		XI      int
+		KI      int
+		CK      string
+	}
+	read := func(c flamego.Context) snap {
+		return snap{c.Param("x"), c.Param("y"), c.Query("k"), c.ParamInt("x"), c.QueryInt("k", 77), c.Cookie("ck")}
+	}
+	var before, after, in snap
+	nest := false
+	mk := func(path, k, ck string) *http.Request {
+		req := newReq("GET", path)
+		req.URL.RawQuery = "k=" + url.QueryEscape(k)
+		req.Header.Set("Cookie", "ck="+ck)
+		return req
+	}
+	f.Get("/p/{x}", func(c flamego.Context) {
+		before = read(c)
+		if nest {
+			f.ServeHTTP(&c01Spy{hdr: http.Header{}}, mk("/r/"+inner, inner, "inner"))
+		}
+		after = read(c)
+	})
+	f.Get("/r/{y}", func(c flamego.Context) { in = read(c) })
+	var pan interface{}
+	func() {
+		defer func() { pan = recover() }()
+		for i := 0; i < warm; i++ {
+			f.ServeHTTP(&c01Spy{hdr: http.Header{}}, mk(fmt.Sprintf("/p/w%d", i), "w", "warm"))
+			f.ServeHTTP(&c01Spy{hdr: http.Header{}}, mk(fmt.Sprintf("/r/v%d", i), "v", "warm"))
+		}
+		nest = true
+		f.ServeHTTP(&c01Spy{hdr: http.Header{}}, mk("/p/"+outer, outer, "outer"))
+	}()
+	if pan != nil {
+		return fmt.Sprintf("panicked: %v", pan)
+	}
+	do, di := decode1(outer), decode1(inner)
+	oi, _ := strconv.Atoi(do)
+	ok, _ := strconv.Atoi(outer) // as the single-request phase: strconv's value, whatever its error
+	wantOuter := snap{X: do, K: outer, XI: oi, KI: ok, CK: "outer"}
+	ik, _ := strconv.Atoi(inner)
+	wantInner := snap{Y: di, K: inner, KI: ik, CK: "inner"}
+	if before != wantOuter {
+		return fmt.Sprintf("outer request read %+v before its sub-request, expected %+v", before, wantOuter)
+	}
+	if in != wantInner {
+		return fmt.Sprintf("inner request read %+v, expected %+v", in, wantInner)
+	}
+	if after != wantOuter {
+		return fmt.Sprintf("outer request read %+v after serving a sub-request, expected its own data %+v", after, wantOuter)
+	}
+	return ""
 }
 
 func fbits(f float64) uint64 { return math.Float64bits(f) }
@@ -315,7 +382,7 @@ func c18Run(r *core.Run) {
 		maxLen = 3
 		r.SetBudget(12 * time.Minute)
 	}
-	r.Rule = "engine E: raw query text / bind parameter text / cookie text = absent, empty, EVERY byte string of length <=2 (thorough 3) over all 256 bytes, and a numeric corpus (signs, bases, overflow, 1e999, NaN, blanks) through every accessor with and without a default; cookie values of every byte string of length <=2 (thorough 3) through SetCookie -> Set-Cookie -> client -> Cookie header -> Cookie(); oracle: no panic, presence by url.ParseQuery / http.Request.Cookie, value by strconv (0 on malformed), absent or empty gives the default or zero, cookies read back byte for byte; non-trivial = text that is present and non-numeric, or a cookie value containing a byte outside [A-Za-z0-9]"
+	r.Rule = "engine E: raw query text / bind parameter text / cookie text = absent, empty, EVERY byte string of length <=2 (thorough 3) over all 256 bytes, and a numeric corpus (signs, bases, overflow, 1e999, NaN, blanks) through every accessor with and without a default; cookie values of every byte string of length <=2 (thorough 3) through SetCookie -> Set-Cookie -> client -> Cookie header -> Cookie(); oracle: no panic, presence by url.ParseQuery / http.Request.Cookie, value by strconv (0 on malformed), absent or empty gives the default or zero, cookies read back byte for byte; request data read before and after a sub-request served on the same instance inside the handler (after 0..2 earlier requests) is the request's own; non-trivial = text that is present and non-numeric, or a cookie value containing a byte outside [A-Za-z0-9]"
 	r.Assumptions = []string{"net/url, net/http cookie parsing and strconv are the reference parsers (trusted)", "QueryTrim/QueryUnescape apply their conversion to the default as well; the default used (DEF) is not altered by either", "QueryStrings returns the list as parsed when the key occurs at all (a list holding one empty string is a present list)"}
 	numeric := []string{"0", "1", "-1", "+1", "007", "12345678901234567890", "-9223372036854775808", "9223372036854775807", "9223372036854775808", "0x10", "1e3", "1e999", "-1e999", "NaN", "nan", "Inf", "-inf", " 1", "1 ", "1_000", "1.5", ".5", "5.", "true", "TRUE", "t", "T", "1", "false", "F", "yes", "１", "%31", "%2B1", "+", "-", "1%001"}
 	bytesUpTo := func(n int) int {
@@ -367,7 +434,7 @@ func c18Run(r *core.Run) {
 			l.Traces++
 			if bad != "" {
 				l.Class("mismatch")
-				l.Violate(kind, bad+fmt.Sprintf(" [%s text %q absent=%v]", mode, raw, absent), c18Case{mode, fmt.Sprintf("%x", raw), fmt.Sprintf("%q", raw), absent})
+				l.Violate(kind, bad+fmt.Sprintf(" [%s text %q absent=%v]", mode, raw, absent), c18Case{Mode: mode, RawHex: fmt.Sprintf("%x", raw), Raw: fmt.Sprintf("%q", raw), Absent: absent})
 				return
 			}
 			if class != "" {
@@ -414,7 +481,7 @@ func c18Run(r *core.Run) {
 			l.Traces++
 			if bad := c18RoundTripOn(f, &got, s); bad != "" {
 				l.Class("mismatch")
-				l.Violate("cookie-roundtrip", bad, c18Case{"cookie-roundtrip", fmt.Sprintf("%x", s), fmt.Sprintf("%q", s), false})
+				l.Violate("cookie-roundtrip", bad, c18Case{Mode: "cookie-roundtrip", RawHex: fmt.Sprintf("%x", s), Raw: fmt.Sprintf("%q", s), Absent: false})
 			} else {
 				l.Class("cookie:round-trip")
 				l.NonTrivial++
@@ -434,9 +501,30 @@ func c18Run(r *core.Run) {
 			l.Traces++
 			l.NonTrivial++
 			if bad := c18Several(names, val); bad != "" {
-				l.Violate("cookie-roundtrip/several-cookies", bad, c18Case{"several-cookies", fmt.Sprintf("%x", strings.Join(names, ",")), val, false})
+				l.Violate("cookie-roundtrip/several-cookies", bad, c18Case{Mode: "several-cookies", RawHex: fmt.Sprintf("%x", strings.Join(names, ",")), Raw: val, Absent: false})
 			} else {
 				l.Class("cookie:several-on-one-response")
+			}
+		}
+	}
+	// request data read around a sub-request served on the same instance, after 0..2 earlier requests
+	nestVals := append([]string{"a", "b", "%41", "x y", "\xff", "-"}, numeric[:12]...)
+	for warm := 0; warm <= 2; warm++ {
+		for _, outer := range nestVals {
+			for _, inner := range nestVals {
+				if strings.ContainsAny(outer+inner, "/?# ;,\\\"") {
+					continue
+				}
+				l.Evals++
+				l.Transitions += int64(2 + 2*warm)
+				l.Traces++
+				l.NonTrivial++
+				l.States++
+				if bad := c18Nested(outer, inner, warm); bad != "" {
+					l.Violate("request-data-after-sub-request", bad+fmt.Sprintf(" [outer %q inner %q after %d earlier request pairs]", outer, inner, warm), c18Case{Mode: "nested", RawHex: fmt.Sprintf("%x", outer), Raw: fmt.Sprintf("%q", outer), Inner: inner, Warm: warm})
+				} else {
+					l.Class("nested:each-request-reads-its-own-data")
+				}
 			}
 		}
 	}
@@ -445,7 +533,7 @@ func c18Run(r *core.Run) {
 		l.Transitions++
 		l.Traces++
 		if bad := c18RoundTrip(v); bad != "" {
-			l.Violate("cookie-roundtrip", bad, c18Case{"cookie-roundtrip", fmt.Sprintf("%x", v), fmt.Sprintf("%q", trunc(v)), false})
+			l.Violate("cookie-roundtrip", bad, c18Case{Mode: "cookie-roundtrip", RawHex: fmt.Sprintf("%x", v), Raw: fmt.Sprintf("%q", trunc(v)), Absent: false})
 		} else {
 			l.Class("cookie:round-trip")
 		}
@@ -476,6 +564,8 @@ func c18Replay(raw json.RawMessage) (bool, string) {
 		bad, _, _ = c18CookieRead(w, s, c.Absent)
 	case "cookie-roundtrip":
 		bad = c18RoundTrip(s)
+	case "nested":
+		bad = c18Nested(s, c.Inner, c.Warm)
 	case "several-cookies":
 		bad = c18Several(strings.Split(s, ","), c.Raw)
 	}
